@@ -37,15 +37,15 @@ type MsgInfo struct {
 }
 
 type SessRec struct {
-	Ours    map[uint32]refotr.DHPair
-	Theirs  map[uint32]*big.Int
-	SSID    [8]byte
-	Start   int
-	Init    bool
-	Must    [][]byte // receiving MAC keys that must eventually be disclosed
-	Shown   [][]byte // MAC keys disclosed so far
-	Used    []refotr.UsedKey
-	Version uint16
+	Ours     map[uint32]refotr.DHPair
+	Theirs   map[uint32]*big.Int
+	SSID     [8]byte
+	Start    int
+	Init     bool
+	Must     [][]byte // receiving MAC keys that must eventually be disclosed
+	Shown    [][]byte // MAC keys disclosed so far
+	Used     []refotr.UsedKey
+	Version  uint16
 	keyCache map[[2]uint32]refotr.DataKeys
 }
 
@@ -62,9 +62,9 @@ type Omni struct {
 	Sh      []*Shadow
 	Div     []string
 	Msgs    []*MsgInfo
-	Verdict map[int]*Verdict // by call seq: the specification's verdict on the message delivered in that call
-	Strict  bool             // record codec strictness problems as divergences
-	Off     map[int]bool     // parties without shadow
+	Verdict map[int]*Verdict                            // by call seq: the specification's verdict on the message delivered in that call
+	Strict  bool                                        // record codec strictness problems as divergences
+	Off     map[int]bool                                // parties without shadow
 	OnData  func(s *Shadow, mi *MsgInfo, r *CallResult) // called for every data message a real party emits, with the shadow state of that moment
 }
 
@@ -353,6 +353,31 @@ func (o *Omni) observe(p *Party, r *CallResult) {
 			}
 		}
 	}
+	bookkeep := func() {
+		if sp.Encrypted && (s.cur() == nil || s.cur().SSID != sp.SSID) {
+			s.Sess = append(s.Sess, &SessRec{Ours: map[uint32]refotr.DHPair{}, Theirs: map[uint32]*big.Int{}, SSID: sp.SSID, Start: r.Seq, Init: sp.Initiator, Version: sp.Version})
+			// carry over what must still be disclosed from the previous session
+			if len(s.Sess) >= 2 {
+				prev := s.Sess[len(s.Sess)-2]
+				_ = prev
+			}
+			if r.Post.SSID != sp.SSID {
+				o.div("%s #%d: SSID %x differs from the specification's %x", p.Name, r.Seq, r.Post.SSID, sp.SSID)
+			}
+			if sp.TheirPub != nil && r.Post.FP != hex.EncodeToString(refotr.Fingerprint(sp.TheirPub)) {
+				o.div("%s #%d: reported peer fingerprint differs from the key that signed the exchange", p.Name, r.Seq)
+			}
+			wantHL := 1
+			if sp.Initiator {
+				wantHL = 0
+			}
+			if r.Post.HL != wantHL {
+				o.div("%s #%d: SSID highlight half %d, specification says %d", p.Name, r.Seq, r.Post.HL, wantHL)
+			}
+		}
+
+	}
+	bookkeep()
 	// 2. compare AKE output byte for byte; absorb data output
 	ei := 0
 	for _, x := range parsed {
@@ -377,28 +402,7 @@ func (o *Omni) observe(p *Party, r *CallResult) {
 	for ; ei < len(expect); ei++ {
 		o.div("%s #%d %s: the specification sends a reply here that the real party did not send (%s)", p.Name, r.Seq, r.Kind, short(expect[ei]))
 	}
-	// 3. session bookkeeping
-	if sp.Encrypted && (s.cur() == nil || s.cur().SSID != sp.SSID) {
-		s.Sess = append(s.Sess, &SessRec{Ours: map[uint32]refotr.DHPair{}, Theirs: map[uint32]*big.Int{}, SSID: sp.SSID, Start: r.Seq, Init: sp.Initiator, Version: sp.Version})
-		// carry over what must still be disclosed from the previous session
-		if len(s.Sess) >= 2 {
-			prev := s.Sess[len(s.Sess)-2]
-			_ = prev
-		}
-		if r.Post.SSID != sp.SSID {
-			o.div("%s #%d: SSID %x differs from the specification's %x", p.Name, r.Seq, r.Post.SSID, sp.SSID)
-		}
-		if sp.TheirPub != nil && r.Post.FP != hex.EncodeToString(refotr.Fingerprint(sp.TheirPub)) {
-			o.div("%s #%d: reported peer fingerprint differs from the key that signed the exchange", p.Name, r.Seq)
-		}
-		wantHL := 1
-		if sp.Initiator {
-			wantHL = 0
-		}
-		if r.Post.HL != wantHL {
-			o.div("%s #%d: SSID highlight half %d, specification says %d", p.Name, r.Seq, r.Post.HL, wantHL)
-		}
-	}
+	bookkeep()
 	if r.Kind == "end" {
 		sp.Encrypted, sp.Finished = false, false
 		sp.AuthState = refotr.AuthNone
